@@ -17,7 +17,7 @@ use crate::sem;
 
 // ------------------------------------------------------------------ C12
 
-const CHARS: &[char] = &['a', 'b', 'x', 'é', '€', '😀', 'A', ' '];
+const CHARS: &[char] = &['a', 'b', 'x', 'é', '€', '😀', 'A', ' ', '\u{7f}', '\u{80}', '\u{7ff}', '\u{800}', '\u{ffff}', '\u{10000}', '\u{100000}', '\u{10ffff}'];
 
 fn c12_check(case: &Case, ctx: &mut Ctx) -> Result<(), String> {
     let cfg = &case.cfg;
@@ -152,7 +152,7 @@ fn c12_strategy(_tier: Tier) -> BoxedStrategy<Case> {
         gen::search_case(SearchOpts {
             prop: "C12",
             cfg: CfgOpts { sks: vec![Sk::Unanchored, Sk::Both], anchored: 0, casei: 1, ..CfgOpts::default() },
-            pats: PatOpts { w_empty: 8, max_class: 0, long: false, w_shapes: 1, w_adversarial: 0, w_fanout: 0 },
+            pats: PatOpts { w_empty: 8, max_class: 0, long: true, w_shapes: 3, w_adversarial: 0, w_fanout: 0 },
             hay: HayOpts { size_class: 1 },
             full_span_only: true,
             alphabets,
@@ -264,8 +264,17 @@ fn predicate_rejects(cfg: &Cfg, method: usize, anchored: bool, has_empty: bool) 
     a || b || c || d
 }
 
-fn invoke(ac: &AhoCorasick, method: usize, hay: &[u8], hay_str: &str, anchored: bool, npats: usize) -> Outcome {
-    let inp = || Input::new(hay).anchored(anch(anchored));
+fn invoke(ac: &AhoCorasick, method: usize, hay: &[u8], hay_str: &str, anchored: bool, npats: usize, span: (usize, usize), prelude: Option<bool>) -> Outcome {
+    let inp = || Input::new(hay).span(aho_corasick::Span { start: span.0, end: span.1 }).anchored(anch(anchored));
+    // An OverlappingState that already served an accepted request with the
+    // anchoring `prelude` (on the empty haystack) before the judged call.
+    let used_state = || {
+        let mut st = OverlappingState::start();
+        if let Some(a) = prelude {
+            let _ = ac.try_find_overlapping(Input::new("").anchored(anch(a)), &mut st);
+        }
+        st
+    };
     let repl_b: Vec<Vec<u8>> = (0..npats).map(|i| vec![b'r'; i % 3]).collect();
     let repl_s: Vec<String> = (0..npats).map(|i| "r".repeat(i % 3)).collect();
     let fallible = method >= 10;
@@ -279,7 +288,7 @@ fn invoke(ac: &AhoCorasick, method: usize, hay: &[u8], hay_str: &str, anchored: 
                 let _ = ac.find(inp());
             }
             2 => {
-                let mut st = OverlappingState::start();
+                let mut st = used_state();
                 ac.find_overlapping(inp(), &mut st);
             }
             3 => {
@@ -319,7 +328,7 @@ fn invoke(ac: &AhoCorasick, method: usize, hay: &[u8], hay_str: &str, anchored: 
                 ac.try_find(inp()).map_err(|_| ())?;
             }
             11 => {
-                let mut st = OverlappingState::start();
+                let mut st = used_state();
                 ac.try_find_overlapping(inp(), &mut st).map_err(|_| ())?;
                 // "if the first call succeeds ... all subsequent calls are
                 // guaranteed to succeed"
@@ -417,7 +426,22 @@ fn c13_check(case: &Case, ctx: &mut Ctx) -> Result<(), String> {
     let hay_str = String::from_utf8_lossy(&case.haystack).to_string();
     let hay: &[u8] = if matches!(method, 5 | 7 | 14 | 16) { hay_str.as_bytes() } else { &case.haystack };
     let expect_reject = predicate_rejects(cfg, method, case.anchored, has_empty);
-    let got = invoke(ac, method, hay, &hay_str, case.anchored, case.patterns.len());
+    // span: only meaningful for the Input-taking methods; clamp to the haystack used
+    let span = if takes_input(method) {
+        let e = case.span.1.min(hay.len());
+        let s = case.span.0.min(e + 1);
+        (s, e)
+    } else {
+        (0, hay.len())
+    };
+    // params[1]: 1/2 = the OverlappingState was used before by an accepted
+    // request with anchoring No/Yes (only if that request is itself accepted)
+    let prelude = match case.params.get(1) {
+        Some(1) if !predicate_rejects(cfg, 11, false, has_empty) => Some(false),
+        Some(2) if !predicate_rejects(cfg, 11, true, has_empty) => Some(true),
+        _ => None,
+    };
+    let got = invoke(ac, method, hay, &hay_str, case.anchored, case.patterns.len(), span, prelude);
     let fallible = method >= 10;
     let want = if !expect_reject {
         Outcome::Accepted
@@ -433,6 +457,14 @@ fn c13_check(case: &Case, ctx: &mut Ctx) -> Result<(), String> {
         ));
     }
     ctx.class(&format!("method:{}", METHODS[method]));
+    if span.0 > span.1 {
+        ctx.class("span:start=end+1");
+    } else if span != (0, hay.len()) {
+        ctx.class("span:restricted");
+    }
+    if prelude.is_some() && matches!(method, 2 | 11) {
+        ctx.class("overlapping-state-reused");
+    }
     ctx.class(if expect_reject { "rejected" } else { "accepted" });
     ctx.class(sem::engine_class(cfg.engine));
     ctx.class(match (case.patterns.is_empty(), has_empty) {
@@ -472,11 +504,12 @@ fn c13_inputs(shape: u8) -> BoxedStrategy<Case> {
 
 fn c13_strategy(_tier: Tier) -> BoxedStrategy<Case> {
     let inputs = Union::new_weighted(vec![(1, c13_inputs(0)), (5, c13_inputs(1)), (4, c13_inputs(2))]);
-    (inputs, 0i64..21, any::<bool>(), proptest::sample::select(Sk::ALL.to_vec()))
-        .prop_map(|(mut c, method, anchored, sk)| {
+    (inputs, 0i64..21, any::<bool>(), proptest::sample::select(Sk::ALL.to_vec()), gen::span_recipe(false), 0i64..3)
+        .prop_map(|(mut c, method, anchored, sk, sr, prelude)| {
             c.cfg.sk = sk;
             c.anchored = anchored;
-            c.params = vec![method];
+            c.span = gen::realize_span(sr, c.haystack.len());
+            c.params = vec![method, prelude];
             c
         })
         .boxed()
@@ -484,7 +517,7 @@ fn c13_strategy(_tier: Tier) -> BoxedStrategy<Case> {
 
 fn c13_extra(tier: Tier, seed: u64, ctx: &mut Ctx) -> Result<bool, Violation> {
     let per_cell = match tier {
-        Tier::Quick => 3,
+        Tier::Quick => 4,
         Tier::Thorough => 24,
     };
     // a pool of generated inputs per shape; the outcome must not depend on them
@@ -500,15 +533,30 @@ fn c13_extra(tier: Tier, seed: u64, ctx: &mut Ctx) -> Result<bool, Violation> {
                             for j in 0..per_cell {
                                 let pool = &pools[shape];
                                 let src = &pool[(cell * 7 + j * 13) % pool.len()];
+                                let n = src.haystack.len();
+                                // input variety per cell: full span, the
+                                // exhausted span start=end+1, a restricted
+                                // span; a fresh or a previously used state
+                                let span = match j % 4 {
+                                    0 => (0, n),
+                                    1 => (n + 1, n),
+                                    2 => (n / 2, n),
+                                    _ => (0, n / 2),
+                                };
+                                let prelude = match j % 3 {
+                                    0 => 0,
+                                    1 => 2,
+                                    _ => 1,
+                                };
                                 let case = Case {
                                     prop: "C13".into(),
                                     sub: "cell".into(),
                                     cfg: Cfg { engine, mk, sk, ..src.cfg.clone() },
                                     patterns: src.patterns.clone(),
                                     haystack: src.haystack.clone(),
-                                    span: (0, src.haystack.len()),
+                                    span,
                                     anchored,
-                                    params: vec![method as i64],
+                                    params: vec![method as i64, prelude],
                                     ..Case::default()
                                 };
                                 if let Err(reason) = runner::run_check(c13_check, &case, ctx) {
@@ -529,7 +577,7 @@ fn c13_extra(tier: Tier, seed: u64, ctx: &mut Ctx) -> Result<bool, Violation> {
 pub const C13: PropDef = PropDef {
     id: "C13",
     rule: "enumerated completely on every run: match kind (3) x start kind (3) x requested anchoring (2) x automaton kind (auto, noncontiguous, contiguous, DFA) x the 21 public search methods of AhoCorasick (10 infallible, 11 try_) x pattern-list shape (no patterns / no empty pattern / with empty pattern) = 4536 cells, \
-each with generated pattern lists and haystacks of that shape (the outcome must not depend on them); plus a random tier over the same space with more varied inputs and builder options. \
+each with generated pattern lists, haystacks and spans (full, restricted, the exhausted span start=end+1) of that shape, and for the stepwise overlapping methods with a fresh OverlappingState or one that already served an accepted request with either anchoring (the outcome must not depend on any of them); plus a random tier over the same space with more varied inputs and builder options. \
 Oracle: rejected iff (a) anchoring not covered by the start kind (replace/stream methods count as unanchored), (b) overlapping or stream search on a non-standard searcher, (c) anchored overlapping iterator, (d) stream search with an empty pattern; \
 fallible => Err value, infallible => panic, accepted => Ok and draining a constructed iterator (or repeating try_find_overlapping after a successful first call) never fails. Outcomes are classified with catch_unwind. \
 Every evaluation is non-trivial (each is a distinct (cell, input) pair); exhaustive over cells, sampled over inputs. Distinct = distinct case fingerprint.",
@@ -549,12 +597,14 @@ impl BudgetGuard {
     fn arm(budget: u64) -> BudgetGuard {
         verif::reset();
         verif::set_step_budget(Some(budget));
+        engine::BUDGET_ARMED.with(|b| b.set(true));
         BudgetGuard
     }
 }
 impl Drop for BudgetGuard {
     fn drop(&mut self) {
         verif::set_step_budget(None);
+        engine::BUDGET_ARMED.with(|b| b.set(false));
     }
 }
 
@@ -580,13 +630,35 @@ fn check_counters(what: &str, span_len: usize, dfa: bool, max_fail_seen: &mut u6
     if dfa && c.fail_links > 0 {
         return Err(format!("{}: a DFA followed {} failure links", what, c.fail_links));
     }
+    // Prefilter work (lower-bound estimate from the hook): every skip moves
+    // the position forward by the scanned distance, there is at most one
+    // invocation per return to the start state plus one up front, and at
+    // most one invocation that finds nothing: <= 3*span + 3.
+    if c.prefilter_scanned > 3 * span_len as u64 + 3 {
+        return Err(format!(
+            "{}: prefilter invocations scanned at least {} bytes in {} calls for a span of {} bytes (re-scanning)",
+            what, c.prefilter_scanned, c.prefilter_calls, span_len
+        ));
+    }
+    // A rare-byte prefilter backs up from the byte it found by at most the
+    // largest recorded offset (<= 255): it never scans further ahead of the
+    // candidate it returns, and it never scans behind the span it was given.
+    if c.prefilter_max_excess > 255 {
+        return Err(format!(
+            "{}: a prefilter invocation scanned {} bytes beyond the candidate it returned (re-scanning up to that distance at every start-state byte)",
+            what, c.prefilter_max_excess
+        ));
+    }
+    if c.prefilter_calls > span_len as u64 + 2 {
+        return Err(format!("{}: {} prefilter invocations for a span of {} bytes", what, c.prefilter_calls, span_len));
+    }
     *max_fail_seen = (*max_fail_seen).max(c.fail_links);
     Ok(())
 }
 
 fn budget_msg(p: String, what: &str) -> String {
     if p.contains(verif::BUDGET_PANIC_MESSAGE) {
-        format!("{}: step budget of 2*span+16 exceeded (non-terminating or super-linear search)", what)
+        format!("{}: step budget of 3*span+16 (transitions + failure links + prefilter calls) exceeded (non-terminating or super-linear search)", what)
     } else {
         format!("{}: panicked: {}", what, p)
     }
@@ -602,7 +674,7 @@ fn c19_check(case: &Case, ctx: &mut Ctx) -> Result<(), String> {
     let hay = &case.haystack[..];
     let (s0, e0) = case.span;
     let span_len = e0.saturating_sub(s0);
-    let budget = 2 * span_len as u64 + 16;
+    let budget = 3 * span_len as u64 + 16;
     let mut max_fail = 0u64;
     // single searches, normal and earliest
     for earliest in [false, true] {
@@ -621,7 +693,7 @@ fn c19_check(case: &Case, ctx: &mut Ctx) -> Result<(), String> {
         while start <= e0 && guard_n <= span_len + 2 {
             guard_n += 1;
             let call_len = e0 - start;
-            let _g = BudgetGuard::arm(2 * call_len as u64 + 16);
+            let _g = BudgetGuard::arm(3 * call_len as u64 + 16);
             let r = guard(|| s.try_find(input(hay, (start, e0), case.anchored, false)));
             let m = r.map_err(|p| budget_msg(p, "iterated try_find"))?.map_err(|e| format!("iterated try_find: Err({})", e))?;
             check_counters("iterated try_find", call_len, dfa, &mut max_fail)?;
@@ -649,7 +721,7 @@ fn c19_check(case: &Case, ctx: &mut Ctx) -> Result<(), String> {
         check_counters("overlapping drain", span_len, dfa, &mut max_fail)?;
         // stream search (unanchored, non-empty patterns)
         if !case.anchored && cfg.supports_anchored(false) && !case.patterns.is_empty() && case.patterns.iter().all(|p| !p.is_empty()) {
-            let _g = BudgetGuard::arm(2 * hay.len() as u64 + 16);
+            let _g = BudgetGuard::arm(3 * hay.len() as u64 + 16);
             let r = guard(|| s.stream_find(hay));
             r.map_err(|p| budget_msg(p, "stream search"))?.map_err(|e| format!("stream search: Err({})", e))?;
             check_counters("stream search", hay.len(), dfa, &mut max_fail)?;
@@ -679,14 +751,14 @@ fn c19_strategy(_tier: Tier) -> BoxedStrategy<Case> {
     let base = gen::search_case(SearchOpts {
         prop: "C19",
         cfg: CfgOpts { anchored: 1, casei: 1, ..CfgOpts::default() },
-        pats: PatOpts { w_empty: 3, max_class: 1, long: false, w_shapes: 4, w_adversarial: 14, w_fanout: 0 },
+        pats: PatOpts { w_empty: 3, max_class: 1, long: true, w_shapes: 8, w_adversarial: 14, w_fanout: 0 },
         hay: HayOpts { size_class: 2 },
         full_span_only: false,
         alphabets: vec![(50, gen::ALPHA_AB), (20, gen::ALPHA_ABCX), (15, gen::ALPHA_CASE), (10, gen::ALPHA_TEXT), (5, gen::ALPHA_FULL)],
         no_empty: false,
     });
     // haystacks designed to ride long failure chains
-    (base, 0u8..6, 1usize..=400, any::<u16>(), gen::span_recipe(false))
+    (base, 0u8..6, prop_oneof![4 => 1usize..=400, 1 => 401usize..=1500], any::<u16>(), gen::span_recipe(false))
         .prop_map(|(mut case, mode, n, sel, sr)| {
             if mode >= 2 && !case.patterns.is_empty() {
                 let np = case.patterns.len();
@@ -736,9 +808,9 @@ pub const C19: PropDef = PropDef {
     rule: "hooked build (cfg(aho_corasick_verif) counters at the next_state call sites of the three search loops and in the failure-link loops of both NFAs): adversarial pattern families (a^k b sets, all suffixes/prefixes of a^k b, Fibonacci words, periodic words, case-insensitive tries, prefilter-shaped sets) x \
 haystacks designed to ride long failure chains (a^n, near-miss repeats of the longest pattern, pattern bodies broken by one byte) x all engines x match kinds x anchoring x prefilter on/off x spans. \
 Oracle per search call (try_find normal and earliest; every call of a caller-driven iteration; the whole overlapping drain on one state up to the first call that reports nothing; the whole stream search): transitions <= span length, positions strictly increase, NFA failure-link traversals <= transitions, DFA failure links == 0, \
-and a step budget of 2*span+16 never trips (the hook panics with a fixed message, so a non-terminating search is a deterministic finding, not a time-out). \
+prefilter invocations <= span+2, their scanned bytes (hook lower bound) <= 3*span+3 (no re-scanning), no invocation scans more than 255 bytes beyond the candidate it returns (hit position of the rare-byte/memmem primitives), and a step budget of 3*span+16 (transitions + failure links + prefilter invocations) never trips (the hook panics with a fixed message, so a non-terminating search is a deterministic finding, not a time-out). \
 Non-trivial = span >= 8 and some measured call followed >= span/4 failure links (the chain was exercised). Distinct = distinct case fingerprint.",
-    assumptions: &["the counters are only as complete as the hook call sites: next_state calls in try_find_fwd_imp, try_find_overlapping_fwd_imp, StreamChunkIter::next; fail-link loops of noncontiguous and contiguous next_state", "prefilter scanning work is not counted (memchr/Teddy are linear by construction)"],
+    assumptions: &["the counters are only as complete as the hook call sites: next_state calls in try_find_fwd_imp, try_find_overlapping_fwd_imp, StreamChunkIter::next; fail-link loops of noncontiguous and contiguous next_state", "prefilter work is measured at the Prefilter::find_in wrapper as a lower bound (candidate - span.start + 1, or the span length when nothing is found); work inside memchr/Teddy itself is not instrumented"],
     cases_quick: 160_000,
     cases_thorough: 3_000_000,
     strategy: c19_strategy,
